@@ -1,19 +1,45 @@
-//! Smoke test of the common machinery (not a registered check).
+//! Scratch probe (not a registered check).
 use jrv::memsrv::*;
 use jrv::runner::*;
-use jsonrpsee_server::{RpcModule, ServerConfig};
+use jsonrpsee_server::{ConnectionGuard, RpcModule, ServerConfig};
 use std::time::Duration;
+use tokio::io::{AsyncReadExt, AsyncWriteExt};
 
 fn main() {
 	let r = block_on_virtual(async {
 		let mut m = RpcModule::new(());
-		m.register_method("echo", |p, _, _| p.as_str().unwrap_or("null").to_string()).unwrap();
-		let srv = MemServer::new(ServerConfig::default(), m);
-		let mut ws = srv.ws().await.unwrap();
-		ws.send_text(r#"{"jsonrpc":"2.0","id":1,"method":"echo","params":[1,2]}"#).await.unwrap();
-		let f = ws.drain_until_idle(Duration::from_secs(10)).await;
-		let h = srv.http_post(br#"{"jsonrpc":"2.0","id":"x","method":"echo","params":[3]}"#.to_vec()).await;
-		(f.iter().map(|f| f.text()).collect::<Vec<_>>(), h.status, h.text())
+		m.register_method("probe", |_, _, ext| {
+			let g = ext.get::<ConnectionGuard>().unwrap();
+			(g.max_connections() - g.available_connections()) as u64
+		})
+		.unwrap();
+		let srv = MemServer::new(ServerConfig::builder().max_connections(3).build(), m);
+		let mut res = Vec::new();
+		for variant in 0..3 {
+			let (mut io, jh) = srv.raw_conn();
+			let req = "GET / HTTP/1.1\r\nHost: localhost\r\nUpgrade: websocket\r\nConnection: Upgrade\r\nSec-WebSocket-Key: dGhlIHNhbXBsZSBub25jZQ==\r\nSec-WebSocket-Version: 13\r\n\r\n";
+			io.write_all(req.as_bytes()).await.unwrap();
+			match variant {
+				0 => drop(io),
+				1 => {
+					let _ = io.shutdown().await;
+					drop(io)
+				}
+				_ => {
+					tokio::time::sleep(Duration::from_millis(2)).await;
+					let mut buf = [0u8; 16];
+					let n = io.read(&mut buf).await.unwrap_or(0);
+					res.push(format!("read {n} bytes: {:?}", String::from_utf8_lossy(&buf[..n])));
+					drop(io)
+				}
+			}
+			tokio::time::sleep(Duration::from_millis(100)).await;
+			let h = srv.http_post(br#"{"jsonrpc":"2.0","id":1,"method":"probe"}"#.to_vec()).await;
+			res.push(format!("variant {variant}: conn task finished={} probe={}", jh.is_finished(), h.text()));
+		}
+		res
 	});
-	println!("{r:?}");
+	for l in r {
+		println!("{l}");
+	}
 }
